@@ -9,7 +9,7 @@
    the dependency relation is acyclic and stays inside the task set. *)
 From Coq Require Import List Bool PArith.
 From JugV Require Import Model.MapReduce Model.Slice Model.Deps Model.Exec Model.ExecCase Model.ExecExample
-  Proofs.ExecFacts Proofs.ExecProgFacts Proofs.ExecTheorems.
+  Model.Store Proofs.ExecFacts Proofs.ExecProgFacts Proofs.ExecTheorems Proofs.ExecStoreFacts.
 Import ListNotations.
 
 (* (a) every value any worker ever stores IS the value of sequential evaluation - for every number
@@ -35,8 +35,8 @@ Print Assumptions C01_complete_when_finished.
 (* (c) running execute again executes nothing and changes no value: for a stored task the start
    event is not enabled, its call counter and its value stay what they are, whatever any workers do *)
 Theorem C01_second_execute_does_nothing : forall (V : Type) (C : cfg V), framed C ->
-  forall r0 tr s tr' s' t, reach C r0 tr s -> results s t <> None -> run C s tr' = Some s' ->
-    (forall w, step C s (EStart w t) = None) /\ execs s' t = execs s t /\ results s' t = results s t.
+  forall r0 tr s tr' s' t, reach C r0 tr s -> results s t <> None -> Exec.run C s tr' = Some s' ->
+    (forall w, Exec.step C s (EStart w t) = None) /\ execs s' t = execs s t /\ results s' t = results s t.
 Proof. exact (@not_started_once_stored). Qed.
 Print Assumptions C01_second_execute_does_nothing.
 
@@ -48,11 +48,26 @@ Theorem C01_programs_qualify : forall p, wf_prog p = true ->
 Proof. exact (fun p H => conj (programs_are_framed p) (conj (programs_are_ranked p H) (programs_are_closed p H))). Qed.
 Print Assumptions C01_programs_qualify.
 
+(* (d), formally: the dump / load / can_load calls of ANY run of the protocol (values interned as
+   integers), replayed on the bookkeeping model of each backend (Model/Store.v, proved to refine a finite
+   map in C06) - file store with or without compress_numpy, results packed or not, dict store with or
+   without its backing file, redis store - leave every task loadable with exactly the value the
+   protocol's abstract store holds: the protocol theorems hold on every backend *)
+Theorem C01_every_backend_carries_the_results : forall (C : cfg valid),
+  (forall a b, c_eqb C a b = true -> a = b) ->
+  forall tr s, Exec.run C (init (fun _ => None)) tr = Some s ->
+  forall t : tid,
+    and (forall Ev compress, f_load (fst (Store.run (fstep Ev) (f_init compress) (store_ops tr))) t = results s t)
+   (and (forall backed, aget t (d_mem (fst (Store.run dstep (d_init backed) (store_ops tr)))) = results s t)
+        (aget t (fst (Store.run rstep [] (store_ops tr))) = results s t)).
+Proof. exact backends_carry_the_results. Qed.
+Print Assumptions C01_every_backend_carries_the_results.
+
 (* non-vacuity: the two-worker run of Model/ExecExample.v is a run of the protocol without failures,
    both workers have left, every task is stored with the value sequential evaluation gives *)
 Example C01_nonvacuous :
   wf_prog ex_prog = true /\ topo (prog_cfg ex_prog) [] [1; 2; 3]%positive /\
-  exists s, run (prog_cfg ex_prog) (init (st_of [])) ex_trace = Some s /\
+  exists s, Exec.run (prog_cfg ex_prog) (init (st_of [])) ex_trace = Some s /\
             forallb (okev (prog_cfg ex_prog)) ex_trace = true /\
             w_pc (ws s 0) = PDone 0 /\ w_pc (ws s 1) = PDone 0 /\
             map (results s) [1; 2; 3]%positive = [Some ex_v1; Some ex_v2; Some ex_v3] /\
